@@ -361,7 +361,7 @@ theorem pstep_inv (c : PCfg) (hl : c.locked = true) (n fuel i : Nat) {ps : PSt} 
         obtain ⟨r, k', e⟩ := hin
         rw [hpc] at e; cases e
       have h0 := h.fresh b hnb hnf hnobody
-      let ps1 : PSt := { ps with st := ps.st.emit (Ev.buildStart b (dirOf c.cwd b) run.env run.id) }
+      let ps1 : PSt := { ps with st := ps.st.emit (Ev.buildStart b (dirOf c.cwd c.home b) run.env run.id) }
       let w1 : Worker := { w with pc := PC.building run k b }
       have hw1 : ps1.workers[i]? = some w := hw
       have hself : (ps1.put i w1).workers[i]? = some w1 := getElem?_put_self hw1
